@@ -4,8 +4,8 @@
    the Python reduce to for integer counts (see Filter.v); the theorems hold for all integer thresholds, hence for
    whatever the floats produce.  The threshold computation itself is compared bit-for-bit by the harness. *)
 From Coq Require Import ZArith PrimFloat.
-From DSW Require Import Py Filter Spec FilterSpec Thresholds.
-From DSW.Proofs Require Import FilterProofs ThresholdProofs.
+From DSW Require Import Py Filter Spec FilterSpec Thresholds FilterFloat.
+From DSW.Proofs Require Import FilterProofs ThresholdProofs FilterFloatProofs.
 
 Theorem C12_whole : forall c s, 1 <= f_k c -> (valid c false s = true <-> window_pred c s).
 Proof. exact valid_whole. Qed.
@@ -43,6 +43,12 @@ Theorem C12_float_short_rule : forall lo hi k g a, fin_nonneg (hi * fz k)%float 
     (let '(gmin, gmax, amax) := thresholds lo hi k in negb (gmax <? g)%Z && negb (amax <? a)%Z).
 Proof. exact short_rule_thresholds. Qed.
 
+(* ... hence the filter with its GC comparisons in binary64, exactly as written in the Python (FilterFloat.valid_float), IS the
+   filter with integer thresholds that all the theorems above are about, for every string shorter than 2^52 symbols *)
+Theorem C12_float_filter_is_integer_filter : forall c only_last s, products_ok c -> (Z.of_nat (length s) <= 2 ^ 52)%Z ->
+  valid_float c only_last s = valid (to_cfg c) only_last s.
+Proof. exact valid_float_is_valid. Qed.
+
 (* the doctest configuration: k = 8, run 2, GC 0.4..0.6 (thresholds 4, 4, 4 = ceil 3.2, floor 4.8, floor 4.8), motif GC *)
 Example C12_nonvacuous :
   let c := {| f_k := 8; f_run := Some 2; f_motifs := Some [[71; 67]]; f_gc := Some (4, 4, 4) |} in
@@ -59,3 +65,4 @@ Print Assumptions C12_substring_test.
 Print Assumptions C12_constructor.
 Print Assumptions C12_float_window_rule.
 Print Assumptions C12_float_short_rule.
+Print Assumptions C12_float_filter_is_integer_filter.
